@@ -176,6 +176,89 @@ class _EarlyContinue(ast.NodeTransformer):
         return node
 
 
+class _AppendLoopToExtend(ast.NodeTransformer):
+    """for x in xs: lst.append(e)  ->  lst.extend([e for x in xs])   (loop body is that single statement)"""
+
+    def visit_For(self, node):
+        self.generic_visit(node)
+        if len(node.body) == 1 and not node.orelse and isinstance(node.body[0], ast.Expr):
+            c = node.body[0].value
+            if isinstance(c, ast.Call) and isinstance(c.func, ast.Attribute) and c.func.attr == "append" and isinstance(c.func.value, ast.Name) \
+                    and len(c.args) == 1 and not c.keywords:
+                comp = ast.ListComp(elt=c.args[0], generators=[ast.comprehension(target=node.target, iter=node.iter, ifs=[], is_async=0)])
+                call = ast.Call(func=ast.Attribute(value=c.func.value, attr="extend", ctx=ast.Load()), args=[comp], keywords=[])
+                return ast.copy_location(ast.Expr(value=call), node)
+        return node
+
+
+class _ElseAfterJump(ast.NodeTransformer):
+    """if c: ...; return/raise/continue/break  else: REST   ->   if c: ...jump;  REST"""
+
+    def _fix(self, stmts):
+        out = []
+        for st in stmts:
+            if isinstance(st, ast.If) and st.orelse and st.body and isinstance(st.body[-1], (ast.Return, ast.Raise, ast.Continue, ast.Break)):
+                rest = st.orelse
+                st.orelse = []
+                out.append(st)
+                out.extend(rest)
+            else:
+                out.append(st)
+        return out
+
+    def generic_visit(self, node):
+        super().generic_visit(node)
+        for fld in ("body", "orelse", "finalbody"):
+            v = getattr(node, fld, None)
+            if isinstance(v, list) and v and isinstance(v[0], ast.stmt):
+                setattr(node, fld, self._fix(v))
+        return node
+
+
+class _ReverseZ3Args(ast.NodeTransformer):
+    """z3.And(a, b, c) -> z3.And(c, b, a); same for Or, Xor (two arguments), Sum with positional arguments"""
+
+    def visit_Call(self, node):
+        self.generic_visit(node)
+        f = node.func
+        if isinstance(f, ast.Attribute) and isinstance(f.value, ast.Name) and f.value.id == "z3" and f.attr in ("And", "Or", "Xor", "Sum") \
+                and len(node.args) >= 2 and not node.keywords and not any(isinstance(a, ast.Starred) for a in node.args):
+            node.args = list(reversed(node.args))
+        return node
+
+
+class _SwapEq(ast.NodeTransformer):
+    """a == b -> b == a, a != b -> b != a (single operator)"""
+
+    def visit_Compare(self, node):
+        self.generic_visit(node)
+        if len(node.ops) == 1 and isinstance(node.ops[0], (ast.Eq, ast.NotEq)):
+            return ast.copy_location(ast.Compare(left=node.comparators[0], ops=node.ops, comparators=[node.left]), node)
+        return node
+
+
+class _SubAsAddNeg(ast.NodeTransformer):
+    """a - b -> a + (-b)"""
+
+    def visit_BinOp(self, node):
+        self.generic_visit(node)
+        if isinstance(node.op, ast.Sub):
+            return ast.copy_location(ast.BinOp(left=node.left, op=ast.Add(), right=ast.UnaryOp(op=ast.USub(), operand=node.right)), node)
+        return node
+
+
+class _IsinstanceSplit(ast.NodeTransformer):
+    """isinstance(x, (A, B)) -> isinstance(x, A) or isinstance(x, B)"""
+
+    def visit_Call(self, node):
+        self.generic_visit(node)
+        if isinstance(node.func, ast.Name) and node.func.id == "isinstance" and len(node.args) == 2 and isinstance(node.args[1], ast.Tuple) \
+                and len(node.args[1].elts) >= 2:
+            return ast.copy_location(ast.BoolOp(op=ast.Or(), values=[
+                ast.Call(func=ast.Name(id="isinstance", ctx=ast.Load()), args=[node.args[0], e], keywords=[]) for e in node.args[1].elts]), node)
+        return node
+
+
 GLOBAL_TRANSFORMS = {
     "unparse": lambda tree: tree,
     "flip-comparisons": lambda tree: _FlipCompare().visit(tree),
@@ -186,6 +269,12 @@ GLOBAL_TRANSFORMS = {
     "fstring-concat": lambda tree: _FStringConcat().visit(tree),
     "temp-for-sink": lambda tree: _TempForSink().visit(tree),
     "early-continue": lambda tree: _EarlyContinue().visit(tree),
+    "append-loop-to-extend": lambda tree: _AppendLoopToExtend().visit(tree),
+    "else-after-jump": lambda tree: _ElseAfterJump().visit(tree),
+    "reverse-z3-args": lambda tree: _ReverseZ3Args().visit(tree),
+    "swap-eq": lambda tree: _SwapEq().visit(tree),
+    "sub-as-add-neg": lambda tree: _SubAsAddNeg().visit(tree),
+    "isinstance-split": lambda tree: _IsinstanceSplit().visit(tree),
 }
 
 
